@@ -34,6 +34,16 @@ def task_loader(with_parent, shard=None, preload=None):
     return Task(w, metapype_io._from_dict, con, name=nm + "]", max_paths=20000, shard=(shard[0], tuple(shard[1])) if shard else None, preload=preload).run()
 
 
+def task_legacy_loader(with_parent):
+    from pyvc.task import Task
+    from contracts.prelude import make_world
+    from contracts import c06_loader
+    from metapype.model import mp_io
+    w = make_world()
+    con = c06_loader.install_legacy(w, with_parent)
+    return Task(w, mp_io.from_json, con, name=f"C06/mp_io.from_json[one node, {'with' if with_parent else 'without'} parent]").run()
+
+
 def full_snapshot(n):
     return (n.id, n.name, n.content, n.tail, n.prefix, tuple(n.attributes.items()), tuple(n.nsmap.items()), tuple(n.extras.items()),
             tuple(full_snapshot(c) for c in n.children))
@@ -165,7 +175,8 @@ def _all(n):
 
 def main(tier, seed):
     t0 = time.time()
-    results = common.run_tasks([("props.C06", "task", {"which": w}) for w in ("serialize", "objectify")])
+    results = common.run_tasks([("props.C06", "task", {"which": w}) for w in ("serialize", "objectify")] +
+                               [("props.C06", "task_legacy_loader", {"with_parent": p}) for p in (False, True)])
     # ~900 paths per variant (None / not None for six slots times the loop paths): partitioned by the first three `if` decisions
     shards = [("props.C06", "task_loader", {"with_parent": p, "shard": ["if", list(bits)]}) for p in (False, True) for bits in itertools.product((True, False), repeat=3)]
     results += common.run_sharded(shards, "C06._from_dict")
@@ -176,8 +187,8 @@ def main(tier, seed):
         "children slot a fresh list of nkids fresh dicts; nothing pre-existing written; recursion against the function's own contract",
         "proved: metapype_io._from_dict up to its children loop, for a dict with that layout (precondition): the node built so far is fresh, named by the "
         "key, registered under the id of slot 0, linked to the given parent, carries the prefix / content / tail of their slots and dictionaries with "
-        "exactly the items of the nsmap / attributes / extras slots; the children are read from slot 7 — writer and reader agree slot by slot. From the "
-        "children loop on _from_dict is NOT VERIFIED (recursion, add_child with its namespace step)",
+        "exactly the items of the nsmap / attributes / extras slots; the children are read from slot 7 — writer and reader agree slot by slot; the same for the legacy reader "
+        "mp_io.from_json and its four slots. From the children loop on, both readers are NOT VERIFIED (recursion, add_child with its namespace step)",
         "BOUNDED, not proved: the rest of the loaders (children, mp_io.from_json — their callees Node.__init__, add_namespace, add_child are proved in "
         "C14/C13/C09), the recursive composition serialise/load (the composition lemma over JSON structures was not attempted), json.dumps / "
         "json.loads themselves (A-json), and the converter to_20210209 (extracted mechanically from utils/convert.py, which cannot be imported)"])
